@@ -247,6 +247,9 @@ func genC07(r *R, sc *Scenario, tier string) {
 			p.DependsOn = map[string]string{}
 		}
 		p.DependsOn[Pick(r, "ghost", "g9", "G0")] = "process_started"
+		if r.P(400) {
+			p.Disabled = true // an undefined dependency is one whoever names it
+		}
 	}
 	if cyc, _ := c07Cycle(spec); cyc && r.P(600) {
 		// a cycle is a cycle, whoever is on it: also among processes that are not started by themselves
